@@ -29,7 +29,7 @@ func c19Check(r *ev.Run, name string, data []byte, uniform int, key string) (lab
 	}
 	got, st := load(&loaders[3], src)
 	cs := func() interface{} {
-		return map[string]interface{}{"input": name, "len": len(data), "data_hex_first_512": hexHead(data, 512), "bytes_per_call": uniform, "first_succeeding_loader": which}
+		return map[string]interface{}{"input": name, "len": len(data), "data_hex_first_65536": hexHead(data, 65536), "bytes_per_call": uniform, "first_succeeding_loader": which}
 	}
 	switch {
 	case got.Panic != "":
